@@ -3,6 +3,8 @@ package main
 // Per-function verification driver, lemmas, axioms.
 
 import (
+	"os"
+	"go/printer"
 	"fmt"
 	"runtime"
 	"go/ast"
@@ -24,7 +26,7 @@ type FuncResult struct {
 
 func (w *World) newFCtx(name string, ct *Contract, defaultSafety bool) *FCtx {
 	c := &FCtx{W: w, Contract: ct, Name: name, ord: map[string]int{}, axSeen: map[string]bool{},
-		loopOrd: map[token.Pos]int{}, callOrd: map[token.Pos]string{}, retOrd: map[token.Pos]int{},
+		loopOrd: map[token.Pos]int{}, callOrd: map[token.Pos]string{}, retOrd: map[token.Pos]int{}, stmtOrd: map[token.Pos]string{},
 		siteOrd: map[token.Pos]int{}, recFuncs: map[string]bool{}, keySorts: map[string]Sort{},
 		rangeIdx: map[token.Pos]rangeInfo{}, budgetPaths: 5000, Inputs: map[string]*Term{},
 		locksTouched: map[string]string{}, eventsTouched: map[string]string{}}
@@ -50,6 +52,7 @@ func (w *World) newFCtx(name string, ct *Contract, defaultSafety bool) *FCtx {
 func (c *FCtx) numberSites(fi *FuncInfo) {
 	nLoop, nRet := 0, 0
 	callCount := map[string]int{}
+	stmtCount := map[string]int{}
 	info := fi.Pkg.TypesInfo
 	ast.Inspect(fi.Decl.Body, func(n ast.Node) bool {
 		switch x := n.(type) {
@@ -66,11 +69,50 @@ func (c *FCtx) numberSites(fi *FuncInfo) {
 			name := calleeName(c.W, info, x)
 			if name != "" {
 				callCount[name]++
-				c.callOrd[x.Pos()] = fmt.Sprintf("%s#%d", name, callCount[name])
+				c.callOrd[x.Lparen] = fmt.Sprintf("%s#%d", name, callCount[name])
+			}
+		}
+		// simple statements can be anchors too: "at before stmt <source text>[#k]"
+		switch x := n.(type) {
+		case *ast.ExprStmt, *ast.AssignStmt, *ast.IncDecStmt, *ast.BranchStmt, *ast.SendStmt, *ast.GoStmt, *ast.DeferStmt, *ast.ReturnStmt:
+			var sb strings.Builder
+			if err := printer.Fprint(&sb, c.W.Fset, x); err == nil {
+				text := strings.Join(strings.Fields(sb.String()), " ")
+				stmtCount[text]++
+				c.stmtOrd[x.(ast.Stmt).Pos()] = fmt.Sprintf("stmt %s#%d", text, stmtCount[text])
 			}
 		}
 		return true
 	})
+	// every anchor of the contract must exist in the function (a vanished anchor would silently drop its clauses)
+	if c.Contract != nil {
+		have := map[string]bool{"return": true}
+		for _, o := range c.callOrd {
+			have["call "+o] = true
+			have["before call "+o] = true
+		}
+		for _, o := range c.stmtOrd {
+			have["before "+o] = true
+		}
+		for i, at := range c.Contract.Ats {
+			w := at.Where
+			if strings.HasPrefix(w, "before stmt ") && !strings.Contains(w[strings.LastIndex(w, " ")+1:], "#") && !have[w] {
+				w += "#1"
+				c.Contract.Ats[i].Where = w
+			}
+			if !have[w] {
+				c.badAnchors = append(c.badAnchors, at.Where)
+				if os.Getenv("GOCV_ANCHORS") != "" {
+					var all []string
+					for k := range have {
+						all = append(all, k)
+					}
+					sort.Strings(all)
+					fmt.Fprintf(os.Stderr, "anchors of %s:\n  %s\n", fi.Key, strings.Join(all, "\n  "))
+				}
+			}
+		}
+	}
 }
 
 func calleeName(w *World, info *types.Info, call *ast.CallExpr) string {
@@ -152,6 +194,9 @@ func (w *World) verifyFuncMode(fi *FuncInfo, ct *Contract, defaultSafety bool, p
 		}
 	}()
 	c.numberSites(fi)
+	if len(c.badAnchors) > 0 {
+		panic(outOfReach(fmt.Sprintf("contract anchor not found in the function: at %s", strings.Join(c.badAnchors, "; at "))))
+	}
 	sig := fi.Obj.Type().(*types.Signature)
 	e := c.newEnv(fi.Pkg, sig, fi.Decl.Body, true, fi.Key)
 	e.FI = fi
